@@ -92,7 +92,8 @@ Section Cmds.
       + exists x'. split; [exact Hx'|]. split; [rewrite (of_nf _ _ _ _ _ _ _ OF); exact Hj|].
         split; [apply (of_box1 _ _ _ _ _ _ _ OF); congruence|].
         split; [intros Hvd; pose proof (of_nodropping _ _ _ _ _ _ _ OF ltac:(discriminate) Hvd); congruence|].
-        intros Hvu. pose proof (of_nouninit _ _ _ _ _ _ _ OF Hvu). congruence.
+        split; [intros Hvu; pose proof (of_nouninit _ _ _ _ _ _ _ OF Hvu); congruence|].
+        intros Hip. apply (HN p x' Hx' Hip Hi).
       + intros t Ht Hd. cbn [read_loc] in Ht. rewrite Hx' in Ht. cbn in Ht.
         match type of Ht with mjoin ?q = _ => destruct q as [[t'|]|] eqn:Ej end; cbn in Ht; try discriminate. injection Ht as ->.
         destruct (sv_loc _ _ _ _ _ HI1 (Some p) false t) as (xt & _ & _ & _ & Hc); [econstructor 3; eauto|].
@@ -287,10 +288,11 @@ Section Cmds.
   Lemma holder_write_ok m r ex :
     holder_good m r ->
     forall p j x, r = RField p j -> get m p = Some x ->
-      (o_box x <> BNotYet \/ o_vst x = VDropping) /\ (o_vst x <> VDropping \/ ex = Some p) /\ o_vst x <> VUninit.
+      (o_box x <> BNotYet \/ o_vst x = VDropping) /\ (o_vst x <> VDropping \/ ex = Some p) /\ o_vst x <> VUninit /\
+      (inD m p = false \/ o_vst x = VDropped \/ ex = Some p).
   Proof.
-    intros Hh p j x -> Hx. cbn in Hh. destruct Hh as (y & Hy & Hb & Hv & _). assert (y = x) by congruence. subst.
-    split; [left; congruence|]. split; [left; congruence | congruence].
+    intros Hh p j x -> Hx. cbn in Hh. destruct Hh as (y & Hy & Hb & Hv & Hi & _). assert (y = x) by congruence. subst.
+    split; [left; congruence|]. split; [left; congruence|]. split; [congruence | auto].
   Qed.
 
   Lemma is_map_later E ex m0 m1 o x : Fr K E ex m0 m1 -> get m0 o = Some x -> is_map m1 o = o_ismap x.
@@ -467,7 +469,7 @@ Section Cmds.
       { intros bb nn Cc (x2 & Hx2 & Hv2). apply (Cur_close_ex K _ _ _ o _ _ _ _ Cc). intros y y' Hy Hy'.
         assert (y = x) by congruence. assert (y' = x2) by congruence. subst.
         split; [congruence|]. split; [congruence|]. split; [congruence|]. split; [congruence|].
-        intros Hba. congruence. }
+        split; [intros Hba; congruence | intros _; congruence]. }
       destruct r'; try triv_post.
       - destruct (Cur_call_n K PostC (KDropValue o) _ _ _ _ _ _ _ _ _ eq_refl (Cur_weaken_ex _ _ _ _ _ _ _ _ C1) HP (fun o => le_n _) (or_intror eq_refl)) as [C2 Ho].
         destruct Ho as (_ & y & x2 & Hy & Hx2 & Hv2 & _). apply ok_post'. apply Hcl; [exact C2 | eauto].
@@ -1205,7 +1207,10 @@ Section Cmds.
             intros xp Hp. split; [intros _ _; auto|]. intros Hd. congruence.
           - left. apply (of_box1 _ _ _ _ _ _ _ OFo). congruence.
           - left. intros Hvd. pose proof (of_nodropping _ _ _ _ _ _ _ OFo ltac:(discriminate) Hvd). congruence.
-          - intros Hvu. pose proof (of_nouninit _ _ _ _ _ _ _ OFo Hvu). congruence. }
+          - intros Hvu. pose proof (of_nouninit _ _ _ _ _ _ _ OFo Hvu). congruence.
+          - assert (Hd3 : inD m3 o = inD m2 o) by (unfold m3, box_alloc; rewrite Hx2; destruct (box_layout K x0); reflexivity).
+            destruct (inD m3 o) eqn:Ei3; [right; left | left; reflexivity].
+            apply (cur_ndd _ _ _ _ _ _ _ _ _ HtN eq_refl o x2 Hx2o); [congruence | exact Hi]. }
         apply Htail; [exact C4|]. exists x3m. split; [|exact Hb3m]. rewrite get_upd_ne by exact Hne. exact Hx3m.
     Qed.
   End Register.
